@@ -838,7 +838,19 @@ func execS(t *testing.T, raw json.RawMessage) *sim.Outcome {
 	}
 	var sig []string
 	var l1, l2 []obsList
+	prelude := func(mainNoUp bool, o *sim.Outcome) {
+		if p.Prelude == "" {
+			return
+		}
+		// another instance first, judged like any history; its faults are not part of the judged one
+		q := p
+		q.Faults = nil
+		var psig []string
+		runHistory(&q, mainNoUp != (p.Prelude == "other"), o, &psig)
+		o.Probe("history_after_another_instance")
+	}
 	fail := sim.InBubble(t, func() {
+		prelude(p.NoUp, o)
 		l1 = runHistory(&p, p.NoUp, o, &sig)
 		o.SimTimeS += sim.SimNow()
 	})
@@ -848,7 +860,10 @@ func execS(t *testing.T, raw json.RawMessage) *sim.Outcome {
 	}
 	if p.Dual && len(p.Faults) == 0 {
 		o2 := &sim.Outcome{}
-		fail := sim.InBubble(t, func() { l2 = runHistory(&p, !p.NoUp, o2, &sig) })
+		fail := sim.InBubble(t, func() {
+			prelude(!p.NoUp, o2)
+			l2 = runHistory(&p, !p.NoUp, o2, &sig)
+		})
 		if fail != "" {
 			failBubble(o, fail)
 			return o
